@@ -158,6 +158,49 @@ Theorem C09_no_lifecycle_before_shutdown : forall cf ps st dr steps l,
 Proof. exact run_steps_pre. Qed.
 Print Assumptions C09_no_lifecycle_before_shutdown.
 
+(* The two ways reading can end under handle_data are distinguished as the Python does.
+   A hook raising OSError (ConnectionResetError, BrokenPipeError, TimeoutError, plain OSError) inside
+   handle_data — first request or later client data — is caught by HttpProtocolHandler.handle_readables
+   (`except socket.error: return True`): reads_teared, NOT must_flush_before_shutdown.  The log gets Teardown and
+   nothing that follows in the history (client bytes, upstream chunks) has any effect before shutdown: no
+   request-handling hook is invoked any more and nothing is queued, whatever the rest of the history is. *)
+Theorem C09_hook_oserror_tears_reads : forall cf ps n,
+  (forall r c rest l l1 st1, on_request_complete cf ps r c l = (l1, Failed st1 (FRaise (OSError n))) ->
+     run_steps cf ps None false (SFirst r c :: rest) l = (l1 ++ [Teardown], Some st1))
+  /\ (forall st0 raw parses rest l l1 st1, on_client_data cf ps st0 raw parses l = (l1, Failed st1 (FRaise (OSError n))) ->
+     run_steps cf ps (Some st0) false (SClient raw parses :: rest) l = (l1 ++ [Teardown], Some st1)).
+Proof. exact hook_oserror_tears_reads. Qed.
+Print Assumptions C09_hook_oserror_tears_reads.
+
+(* ... whereas after a REJECTION of later client data (handle_data returns True, must_flush_before_shutdown) a chunk
+   arriving from upstream still runs through the handle_upstream_chunk chain in configured order and is relayed *)
+Theorem C09_rejection_still_relays : forall cf ps st0 raw parses up rest l l1 st1 resp,
+  on_client_data cf ps st0 raw parses l = (l1, Failed st1 (FReject resp)) -> st_upstream st1 = true ->
+  run_steps cf ps (Some st0) false (SClient raw parses :: SUpstream up :: rest) l =
+  match on_upstream_data ps st1 up (handle_data_end (FReject resp) l1) with
+  | (l2, Continue st2) => run_steps cf ps (Some st2) true rest l2
+  | (l2, Failed st2 f) => (upstream_data_end f l2, Some st2)
+  end.
+Proof. exact rejection_still_relays. Qed.
+Print Assumptions C09_rejection_still_relays.
+
+(* every failure under handle_data falls in exactly one of the three classes *)
+Theorem C09_read_end_cases : forall cf ps,
+  (forall r c rest l l1 st1 f, on_request_complete cf ps r c l = (l1, Failed st1 f) ->
+     run_steps cf ps None false (SFirst r c :: rest) l =
+     match read_end_of f with
+     | MustFlush => run_steps cf ps (Some st1) true rest (handle_data_end f l1)
+     | ReadsTeared | EscapesLoop => (handle_data_end f l1, Some st1)
+     end)
+  /\ (forall st0 raw parses rest l l1 st1 f, on_client_data cf ps st0 raw parses l = (l1, Failed st1 f) ->
+     run_steps cf ps (Some st0) false (SClient raw parses :: rest) l =
+     match read_end_of f with
+     | MustFlush => run_steps cf ps (Some st1) true rest (handle_data_end f l1)
+     | ReadsTeared | EscapesLoop => (handle_data_end f l1, Some st1)
+     end).
+Proof. exact (fun cf ps => conj (run_steps_first_fail cf ps) (run_steps_client_fail cf ps)). Qed.
+Print Assumptions C09_read_end_cases.
+
 (* ------------------------------------------------------------------ non-vacuity and recorded examples *)
 Definition ex_cf : config := mkConfig (bs "proxy.py v0") [] false.
 Definition ex_req : request :=
@@ -230,3 +273,20 @@ Example C09_reject_in_hcr_after_connect :
   connect_log l = [Connect (bs "h.example") 80 None] /\ upstream_queue l = []
   /\ client_queue l = [QueueClient (bs "HTTP/1.1 403 No" ++ CRLF ++ bs "Content-Length: 0" ++ CRLF ++ bs "Connection: close" ++ CRLF ++ CRLF)].
 Proof. vm_compute. repeat split; reflexivity. Qed.
+
+
+(* a hook raising OSError on the second request while the response chunk "ok" is pending: reads are torn, the chunk
+   "MORE" the upstream sends afterwards reaches no hook and is not relayed (corpus/C09/oserror-drain.json, replayed on
+   /repo); the same history with a REJECTION instead still relays "MORE" *)
+Definition ex_boom (o : outcome request) : plugin :=
+  mkPlugin 1 (bs "Boom") (fun _ r => Pass r) (fun _ _ _ => Some (None, None))
+           (fun seen r => if existsb (is_call_of HCR) seen then o else Pass r)
+           (fun _ b => Pass b) (fun _ b => Pass b) (fun _ c => Pass c) (fun _ => None).
+Definition ex_boom_steps : list step :=
+  [SFirst ex_req true; SUpstream (bs "ok"); SClient (bs "GET2") [PComplete ex_req []]; SUpstream (bs "MORE")].
+Example C09_oserror_vs_rejection_drain :
+  let lo := run_conn ex_cf [ex_boom (Raise (OSError 104))] ex_c0 ex_boom_steps in
+  let lr := run_conn ex_cf [ex_boom (Reject None)] ex_c0 ex_boom_steps in
+  client_queue lo = [QueueClient (bs "ok")] /\ length (filter (is_call_of HUC) lo) = 1%nat /\ In Teardown lo
+  /\ client_queue lr = [QueueClient (bs "ok"); QueueClient (bs "MORE")] /\ length (filter (is_call_of HUC) lr) = 2%nat /\ In Teardown lr.
+Proof. vm_compute. repeat split; try reflexivity; repeat (try (left; reflexivity); right). Qed.
